@@ -445,6 +445,9 @@ pub struct FnSig {
     pub ret: Ty,
     /// self-recursive through a list or counter template (call sites must pass well-founded args)
     pub recursive: bool,
+    /// the body makes function values (lambda, assign-lambda, function name as a value), itself or
+    /// through the helpers it calls: not callable from a defconst (known C14 finding)
+    pub fun_values: bool,
 }
 
 #[derive(Clone, Debug)]
@@ -526,6 +529,8 @@ pub struct Gen<'a, 'b> {
     /// nesting is capped by construction, harder when the parameter list is long.
     pub let_depth: usize,
     pub let_limit: usize,
+    /// set while a helper body is generated as soon as it makes a function value
+    pub fun_value_use: bool,
 }
 
 type Scope = Vec<(String, Ty)>;
@@ -594,6 +599,7 @@ impl<'a, 'b> Gen<'a, 'b> {
             counter: 0,
             all_names: reserved,
             in_defconst: false,
+            fun_value_use: false,
             let_depth: 0,
             let_limit: 3,
         }
@@ -601,6 +607,9 @@ impl<'a, 'b> Gen<'a, 'b> {
 
     fn fresh(&mut self, prefix: &str) -> String {
         self.counter += 1;
+        // lower-case parameters (the unused-argument check's subjects) start with letters from
+        // all over the alphabet: the check sorts and compares names
+        let prefix = if prefix == "p" { *self.c.choose(&["b", "d", "e", "g", "h", "k", "m", "n", "p", "s", "t", "u", "v", "w", "y", "z"]) } else { prefix };
         let n = format!("{}{}", prefix, self.counter);
         self.all_names.insert(n.as_bytes().to_vec());
         n
@@ -804,6 +813,7 @@ impl<'a, 'b> Gen<'a, 'b> {
                 let params: Vec<Pat> = args.iter().map(|t| Pat::Name(self.fresh("X"), t.clone())).collect();
                 let body = self.lit_of(ret);
                 self.feat("lambda");
+                self.fun_value_use = true;
                 Expr::Lambda {
                     caps: vec![],
                     params: list_pat(params, Pat::Nil),
@@ -1149,10 +1159,12 @@ impl<'a, 'b> Gen<'a, 'b> {
             .collect();
         if !cands.is_empty() && self.c.chance(110) && self.cfg.allow_lambda && !self.in_defconst {
             self.feat("function-name-as-value");
+            self.fun_value_use = true;
             return Expr::FunRef(cands[self.c.pick(cands.len())].clone());
         }
         // lambda with captures
         self.feat("lambda");
+        self.fun_value_use = true;
         let visible: Vec<(String, Ty)> = {
             let mut seen = BTreeSet::new();
             scope.iter().rev().filter(|v| seen.insert(v.0.clone())).cloned().collect()
@@ -1289,6 +1301,9 @@ impl<'a, 'b> Gen<'a, 'b> {
         if hint == 1 {
             self.let_depth = self.let_limit.max(self.let_depth);
         }
+        if hint == 2 {
+            self.fun_value_use = true;
+        }
         self.feat(match hint {
             0 => "assign",
             1 => "assign-inline",
@@ -1367,7 +1382,8 @@ impl<'a, 'b> Gen<'a, 'b> {
     }
 
     fn gen_call(&mut self, ty: &Ty, scope: &Scope, depth: usize) -> Option<Expr> {
-        let cands: Vec<FnSig> = self.fns.iter().filter(|f| is_sub(&f.ret, ty)).cloned().collect();
+        let in_defconst = self.in_defconst;
+        let cands: Vec<FnSig> = self.fns.iter().filter(|f| is_sub(&f.ret, ty) && !(in_defconst && f.fun_values)).cloned().collect();
         if cands.is_empty() {
             return None;
         }
@@ -1377,6 +1393,9 @@ impl<'a, 'b> Gen<'a, 'b> {
 
     pub fn call_of(&mut self, f: &FnSig, scope: &Scope, depth: usize) -> Expr {
         self.feat(if f.inline { "inline-call" } else { "defun-call" });
+        if f.fun_values {
+            self.fun_value_use = true;
+        }
         let d = depth.saturating_sub(1);
         let mut args: Vec<Expr> = f.params.iter().map(|p| self.gen_expr(&pat_ty(p), scope, d)).collect();
         let mut rest = None;
@@ -1486,6 +1505,8 @@ impl<'a, 'b> Gen<'a, 'b> {
                 let ret = if recursive { Ty::Int } else { self.gen_ret_ty() };
                 let (mut params, rest) = self.gen_param_list("A", if inline { 6 } else { self.cfg.max_params.min(12) }, self.cfg.allow_rest || self.cfg.classic_subset);
                 let body;
+                let outer_fun_value_use = self.fun_value_use;
+                self.fun_value_use = false;
                 if recursive {
                     self.feat("recursive-function");
                     // template: first parameter drives the recursion
@@ -1510,6 +1531,7 @@ impl<'a, 'b> Gen<'a, 'b> {
                         rest: rest.clone(),
                         ret: ret.clone(),
                         recursive: true,
+                        fun_values: self.fun_value_use,
                     };
                     let (cond, step_arg, elem) = if by_list {
                         (
@@ -1544,7 +1566,14 @@ impl<'a, 'b> Gen<'a, 'b> {
                     }
                     let d = self.c.range(1, self.cfg.max_depth);
                     self.let_limit = if scope.len() > 8 { 1 } else if scope.len() > 4 { 2 } else { 3 };
-                    body = self.gen_expr(&ret, &scope, d);
+                    let accessor: Vec<String> = self.vars_of(&scope, &ret).iter().map(|v| v.0.clone()).collect();
+                    body = if !accessor.is_empty() && self.c.chance(22) {
+                        // an accessor: the function's code is a bare environment path
+                        self.feat("accessor-function");
+                        Expr::Var(accessor[self.c.pick(accessor.len())].clone())
+                    } else {
+                        self.gen_expr(&ret, &scope, d)
+                    };
                     self.let_limit = 3;
                     self.fns.push(FnSig {
                         name: name.clone(),
@@ -1553,8 +1582,10 @@ impl<'a, 'b> Gen<'a, 'b> {
                         rest: rest.clone(),
                         ret: ret.clone(),
                         recursive: false,
+                        fun_values: self.fun_value_use,
                     });
                 }
+                self.fun_value_use = outer_fun_value_use;
                 self.feat(if inline { "defun-inline" } else { "defun" });
                 Helper::Defun {
                     name,
